@@ -21,7 +21,8 @@ ASSUMPTIONS = [
     "scikit-learn trees cast inputs to float32: the invariant is predict(x) == digitize(float64(float32(x)), bins); "
     "bins and queries are generated float32-representable except in the class 'float64-edges', where a mismatch "
     "explained by the cast alone is the known finding C12/digitize2tree/float32-cast-at-edge",
-    "finite query points (scikit-learn refuses inf)",
+    "query points: finite float32 values up to +-max(float32), and the missing value nan, which scikit-learn trees "
+    "route and numpy.digitize sorts last (infinite points are refused by scikit-learn)",
 ]
 
 
@@ -80,19 +81,41 @@ def run_digitize(case, ctx):
     rng = numpy.random.RandomState(case["sub"] % (2 ** 31))
     n = case["n"]
     asan = case.get("flavour") == "asan"
-    for kind in ("regular", "irregular", "negative", "adjacent", "huge"):
-        bins_up = make_bins(rng, n, kind)
+    FMAX = float(numpy.finfo(numpy.float32).max)
+    for kind in ("regular", "irregular", "negative", "adjacent", "huge", "open-ended", "outside-float32"):
+        if kind in ("open-ended", "outside-float32"):
+            # first / last edge infinite (open-ended bins) or finite but beyond the float32 range, in every combination
+            bins_up = make_bins(rng, n, "irregular").astype(numpy.float64)
+            lo, hi = (-numpy.inf, numpy.inf) if kind == "open-ended" else (-1e39 * (1 + rng.rand()), 1e39 * (1 + rng.rand()))
+            which = rng.randint(3) if n > 1 else rng.randint(2)
+            if len(bins_up) == n:
+                if which in (0, 2):
+                    bins_up[0] = lo
+                if which in (1, 2):
+                    bins_up[-1] = hi
+                if n >= 3 and rng.rand() < 0.3:
+                    # two edges outside the float32 range on the same side
+                    if which in (0, 2):
+                        bins_up[0], bins_up[1] = -numpy.inf, -1e39
+                    else:
+                        bins_up[-2], bins_up[-1] = 1e39, numpy.inf
+        else:
+            bins_up = make_bins(rng, n, kind)
         if len(bins_up) != n:
             ctx.excluded("bins-collapsed-in-float32")
             continue
         for direction in ("ascending", "descending"):
             bins = bins_up if direction == "ascending" else bins_up[::-1].copy()
-            dn, up = neighbours(bins_up)
-            mids = f32((bins_up[1:] + bins_up[:-1]) / 2) if n > 1 else numpy.array([])
-            span = max(1.0, float(numpy.abs(bins_up).max()))
+            with numpy.errstate(all="ignore"):
+                dn, up = neighbours(bins_up)
+                mids = f32((bins_up[1:] + bins_up[:-1]) / 2) if n > 1 else numpy.array([])
+            span = max(1.0, float(numpy.abs(bins_up[numpy.abs(bins_up) < 1e38]).max())) if (numpy.abs(bins_up) < 1e38).any() else 1.0
             beyond = f32([bins_up[0] - span, bins_up[-1] + span, -1e30 * 3, 1e30 * 3, 0.0])
-            x = numpy.concatenate([bins_up, dn, up, mids, beyond, f32(rng.uniform(bins_up[0] - 1, bins_up[-1] + 1, 8))])
-            x = x[numpy.isfinite(x)]
+            x = numpy.concatenate([bins_up, dn, up, mids, beyond, f32(rng.uniform(float(numpy.clip(bins_up[0], -1e30, 1e30)) - 1, float(numpy.clip(bins_up[-1], -1e30, 1e30)) + 1, 8))])
+            x = x[numpy.isfinite(x) & (numpy.abs(x) <= FMAX)]
+            # the extreme values scikit-learn accepts: a missing value, the largest float32 and its neighbours
+            x = numpy.concatenate([x, [numpy.nan, -FMAX, FMAX, float(numpy.nextafter(numpy.float32(-FMAX), numpy.float32(0))),
+                                       float(numpy.nextafter(numpy.float32(FMAX), numpy.float32(0)))]])
             cfg = {"n_bins": n, "kind": kind, "direction": direction}
             K = "C12/digitize2tree/"
             try:
@@ -153,7 +176,8 @@ def run_digitize(case, ctx):
             if pred.shape != exp.shape or not numpy.array_equal(pred, exp):
                 bad = numpy.where(pred != exp)[0]
                 j = int(bad[0])
-                where = ("above-all-edges" if x[j] > bins_up[-1] else "below-all-edges" if x[j] <= bins_up[0]
+                where = ("missing-value" if numpy.isnan(x[j]) else "largest-float32" if abs(x[j]) == FMAX else
+                         "above-all-edges" if x[j] > bins_up[-1] else "below-all-edges" if x[j] <= bins_up[0]
                          else "on-edge" if x[j] in bins_up else "between-edges")
                 ctx.violation(K + "differs-from-numpy/%s/%s" % (direction, where),
                               "x=%r: tree %r, numpy.digitize %r (%d of %d points differ)" % (
